@@ -3,3 +3,6 @@ package types
 import rt "github.com/teleport-network/teleport/zzverifrt"
 
 func rtU64(tag string) uint64 { return rt.U64(tag) }
+
+func rtIntRange(tag string, lo, hi int) int { return rt.IntRange(tag, lo, hi) }
+func rtBytesN(tag string, n int) []byte      { return rt.BytesN(tag, n) }
